@@ -70,6 +70,24 @@ def run(ctx):
         ctx.oblige(f'extraction ({d},{b}) succeeds and is deterministic', ok)
         if not ok and not sweep_bad:
             sweep_bad = (d, b, x[:200])
+    # the command that writes the model (`gnark-mbu extract-circuit`, what CI runs) must produce the
+    # library's extraction whatever the output path held before
+    cli = common.build_cli(ctx)
+    cli_bad = None
+    outp = os.path.join(ctx.scratchdir(), 'model.lean')
+    for d, b, label in ((30, 4, 'fresh path'), (3, 1, 'path holding a larger model'), (30, 4, 'path holding a smaller model')):
+        p_ = common.run([cli, 'extract-circuit', '--output', outp, '--tree-depth', str(d), '--batch-size', str(b)])
+        got = open(outp).read() if os.path.exists(outp) else ''
+        want = committed if (d, b) == (30, 4) else extract(d, b)
+        programs += 1
+        ok = p_.returncode == 0 and got == want
+        ctx.oblige(f'`gnark-mbu extract-circuit` ({d},{b}) into a {label} = ExtractLean({d},{b})', ok,
+                   '' if ok else f'exit {p_.returncode}, {len(got)} bytes on disk, {len(want)} expected')
+        if not ok and not cli_bad:
+            cli_bad = {'depth': d, 'batch': b, 'output_state': label, 'exit': p_.returncode, 'bytes_on_disk': len(got), 'bytes_expected': len(want),
+                       'first_difference': first_diff(want, got)}
+    if os.path.exists(outp):
+        os.remove(outp)
     # translation validation proper: the committed model, flattened (gadgets inlined, wires
     # renumbered), is the API-call trace of the current Go circuits and of the proved Lean model
     flat_bad = None
@@ -126,6 +144,9 @@ def run(ctx):
     if sweep_bad:
         replay = common.write_replay(ctx, 'sweep', {'kind': 'sweep', 'depth': sweep_bad[0], 'batch': sweep_bad[1], 'output': sweep_bad[2]})
         raise Violation(f'extraction fails or is unstable at ({sweep_bad[0]},{sweep_bad[1]})', replay)
+    if cli_bad:
+        replay = common.write_replay(ctx, 'cli-extract', {'kind': 'cli-extract', **cli_bad})
+        raise Violation(f'`extract-circuit` ({cli_bad["depth"]},{cli_bad["batch"]}) into a {cli_bad["output_state"]}: {cli_bad["bytes_on_disk"]} bytes on disk, {cli_bad["bytes_expected"]} expected', replay)
     if flat_bad:
         replay = common.write_replay(ctx, 'flatten', {'kind': 'flatten', **flat_bad})
         raise Violation('the committed model, flattened, is not the trace of the current circuit: ' + json.dumps(flat_bad)[:400], replay)
